@@ -138,7 +138,7 @@ def h_monotone(ctx):
 
 
 # ---- 3. every documented input form gives the same JDE
-FORMS = ["6args", "tuple", "list", "set", "copy", "number", "short-name", "long-name", "fractional-day", "datetime",
+FORMS = ["6args", "tuple", "list", "set", "copy", "set-itself", "number", "short-name", "long-name", "fractional-day", "datetime",
          "date", "3args", "4args", "5args", "check_input_date", "check_input_date-tuple"]
 SHORT = ["Jan", "Feb", "Mar", "Apr", "May", "Jun", "Jul", "Aug", "Sep", "Oct", "Nov", "Dec"]
 LONG = ["January", "February", "March", "April", "May", "June", "July", "August", "September", "October",
@@ -171,6 +171,10 @@ def h_forms(ctx, form):
         src = ctx.new(EPOCH, y, m, d, h, mi, s)
         e = ctx.new(EPOCH, src)
         ctx.vc("copy is a different object", e is not src)
+    elif form == "set-itself":
+        # 'another Epoch' may be the object itself: e.set(e) leaves the value as it is
+        e = ctx.new(EPOCH, y, m, d, h, mi, s)
+        ctx.method(e, "set", e)
     elif form == "number":
         e = ctx.new(EPOCH, want)
     elif form in ("short-name", "long-name"):
@@ -355,3 +359,6 @@ def b_float(rng, tier):
             bad = bad or (j, t, prev)
         prev = t
     yield ("monotone", bad is None, bad)
+
+
+P.frame_check()
